@@ -69,6 +69,7 @@ pub fn std_updates() -> Vec<(String, Option<String>, i64)> {
         upd("p", Some("b"), 2),
         upd("p", None, 1),
         upd("p", None, 2),
+        upd("p", Some(""), 1),
         upd("q", Some("a"), 1),
     ]
 }
